@@ -50,6 +50,18 @@ class ShardState(object):
             self.samples.append(s)
 
 
+def purge_toasty():
+    """clean-room mode: forget every toasty module so that module-level state (caches, class attributes)
+    cannot carry over from one case to the next; the next import builds it afresh"""
+    for name in [k for k in sys.modules if k == "toasty" or k.startswith("toasty.")]:
+        if name.endswith("_libtoasty"):
+            continue
+        del sys.modules[name]
+
+
+CLEANROOM = os.environ.get("VT_CLEANROOM") == "1"
+
+
 def load_check(check_id):
     return importlib.import_module("vt.checks." + check_id.lower())
 
@@ -113,6 +125,8 @@ def run_hypothesis(mod, part, shard, nshards, tier, seed, open_sigs, st):
             st.budget_exhausted = True
             return True
         st.evals += 1
+        if CLEANROOM:
+            purge_toasty()
         try:
             out = part.execute(case)
         except Violation as v:
